@@ -116,15 +116,29 @@ var required = map[string][]string{
 }
 
 // templates: how the payload is embedded into the leaf's value. "%s" = the whole value.
-func templatesFor(lf *leaf, thorough bool) []string {
+func templatesFor(lf *leaf, p *payload, thorough bool) []string {
 	if lf.IsKey {
 		return []string{"%s"}
 	}
+	// the plain-name payloads additionally go into the NAME position of NAME=value strings
+	name := p != nil && p.Preset
 	switch lf.Owner {
 	case "definition.Params", "stepDef.Params":
 		t := []string{"%s", "pre %s post", "K=%s", `K="x %s y"`, `"x %s y"`}
 		if thorough {
 			t = append(t, `first K1=v1 K2=%s`, `"%s"`)
+		}
+		if name {
+			t = append(t, "%s=v", "first %s=v")
+		}
+		return t
+	case "stepDef.Env":
+		t := []string{"%s", "pre %s post"}
+		if thorough {
+			t = append(t, "  %s", "pre\n%s\npost")
+		}
+		if name {
+			t = append(t, "%s=v")
 		}
 		return t
 	case "funcDef.Command":
